@@ -17,6 +17,12 @@ CHECKS = {
  "C04": dict(cat="fault_enumeration", tech="fault enumeration at the HTTP body/writer boundary with a per-protocol terminator model",
    text="Held on every enumerated fault: every cut offset of every recorded response and request body x {clean EOF, unexpected EOF, transport error} x HTTP trailers present/absent, failure of every j-th ResponseWriter.Write, and a client transport failing after j request-body reads. Oracle: success only if the protocol's terminator arrived; otherwise a coded error, delivered messages a prefix of those sent, handler never sees a clean end after a failed/mid-message body, failed writes surface from Send, and every call returns (watchdog).",
    note="Clean-EOF truncation of a unary Connect 200 body is excluded as indistinguishable; after an in-body terminator a later transport error may yield either completion or a coded error.", ref="DESIGN.md 4 C04"),
+ "C06": dict(cat="exploration", tech="hostile-response fuzzing of the client over a canned HTTPClient with per-operation error oracle",
+   text="Held on every executed crafted response: grammar-based hostile responses per protocol (adversarial grpc-status / grpc-message / details-bin, JSON error bodies without or with bad codes, end-of-stream objects, flag bytes, lying lengths, encodings, every status class), mutations of recorded valid responses and random bytes, x 3 protocols x 2 codecs x 4 kinds. Every operation's result is checked: call returns (watchdog), no panic (recover + child-process crash attribution), every error is a *connect.Error with non-zero code, non-200 without a valid protocol error maps to a code that is a function of the status (exact on the agreed subset), in-body metadata with arbitrary casing is found with canonical lookups.",
+   note="Clients are built with WithReadMaxBytes(1 MiB); header maps are canonical-keyed as net/http delivers them.", ref="DESIGN.md 4 C06"),
+ "C07": dict(cat="exploration", tech="hostile-request fuzzing of Handler.ServeHTTP with a recording ResponseWriter and the reference decoder as oracle",
+   text="Held on every executed crafted request: grammar-based hostile requests (unsupported encodings, malformed timeouts, reserved flags, server-only frames, lying lengths, truncated / undecodable / oversize / bomb payloads), mutations of recorded valid requests (bit flips, truncation, dropped headers, method/version/content-type changes) and random bytes, x 3 protocols x 2 codecs x 4 kinds x 2 handler configurations. Oracle: no panic, returns, response well-formed for the selected protocol per the reference decoder (or a bare 405/415/505), user code at most once, messages seen by user code are a prefix of the reference-decoded valid prefix, unknown compression => unimplemented naming the algorithms without running user code, malformed timeout => invalid_argument without running user code, malformed framing / undecodable / oversize never answered with success.",
+   note="Handlers use WithReadMaxBytes(1 MiB); a zero-length JSON envelope is read as the zero message (the library's documented reading).", ref="DESIGN.md 4 C07"),
 }
 
 REASON_PENDING="check under construction (framework being built); will be claimed once its monitor exists"
